@@ -1,5 +1,6 @@
 import MxModel.Proofs.CalcAnc
 import MxModel.Proofs.CalcValued
+import MxModel.Proofs.CalcValues
 /-!
 # C16 – Memory-optimised runs: the plan made by `get_calcsteps`
 
@@ -671,6 +672,163 @@ theorem paste_must_not_inspect_values :
 /-- what the skipping paste does on `valNone3`: `3` is recomputed in the last block, with `2` and `1` -/
 example : executeSkipNone Option.isNone valNone3 demoPreds 5 (calcSteps demoOrder demoSuccs [4] 2) {} =
     { data := [(4, some 24)], inputs := [4], edges := [], log := [0, 1, 2, 3, 4, 3, 2, 1] } := by decide
+
+/-! ## Values: what the targets hold is what direct evaluation gives
+
+The model with values (Kernels/CalcSteps.lean): a finite DAG of elements, `preds n` the precedents the formula
+of `n` reads, and a pure evaluation function `f n vs` – the value of `n` when its precedents have the values
+`vs` (so `f` reads its precedents only; `none` in `vs`: a precedent had no value when it was read).  `'calc'`
+stores `f n (the precedents' values in the current cache)`.  `direct f preds inp k n` is DIRECT evaluation of
+`n` to depth `k` relative to the values `inp` the model holds and does not recompute (user inputs first of
+all): the least fixed point of the evaluation equations along the DAG. -/
+
+/-- **run_values_are_direct_evaluation** Executing the plan from the empty model: for every value domain
+(`None` or not), every evaluation function, every topological order of distinct nodes, target list, step size
+`≥ 1`, call-depth bound `≥ 1`, program whose calls stay inside the plan – the elements that hold a value at
+the end are exactly the targets, and the value each of them holds is the one direct evaluation gives it, at
+every depth `≥` the number of planned elements (the depth at which direct evaluation has settled). -/
+theorem run_values_are_direct_evaluation {V : Type} [Inhabited V] (f : Node → List (Option V) → V)
+    (ordered : List Node) (succs preds : Node → List Node) (targets : List Node)
+    (size fuel : Nat) (hz : 1 ≤ size) (ht : isTopo succs ordered = true) (hd : ordered.Nodup)
+    (hp : ∀ n ∈ ordered, ∀ p ∈ preds n, p ∈ ordered ∧ n ∈ succs p) :
+    (∀ x, (∃ v, (executeV f preds (fuel + 1) (calcSteps ordered succs targets size) {}).value x = some v) ↔
+      x ∈ targets ∧ x ∈ ordered) ∧
+    (∀ x v, (executeV f preds (fuel + 1) (calcSteps ordered succs targets size) {}).value x = some v →
+      ∀ k, ordered.length ≤ k → direct f preds (fun _ => none) k x = some v) := by
+  have hrc := run_correct_any_values f ordered succs preds targets size fuel hz ht hd hp
+  obtain ⟨hs, _, hk⟩ := direct_solves ordered succs preds ht hd f (fun _ => none) (fun _ _ => rfl)
+    (fun n hn p hpm => Or.inl (hp n hn p hpm))
+  have hc := run_cons ordered succs targets size preds {} ht hd ⟨by simp, by simp⟩ (by simp) (by simp)
+    (fun n hn p hpm => Or.inl (hp n hn p hpm)) f _ hs fuel hz ({} : VCache V) rfl (by intro e he; cases he)
+  constructor
+  · intro x
+    rw [← hrc.1 x]
+    constructor
+    · rintro ⟨v, hv⟩; exact held_of_value hv
+    · intro hx
+      obtain ⟨v, hv, _⟩ := value_of_held (c := executeV f preds (fuel + 1) (calcSteps ordered succs targets size) {}) hx
+      exact ⟨v, hv⟩
+  · intro x v hv k hk'
+    have hx := ((hrc.1 x).mp (held_of_value hv)).2
+    rw [hk x hx k hk', hc.value hv]
+
+/-- **run_values_are_direct_evaluation_from_any_values** The same from ANY model state with values: `inp`
+describes what the model holds when the run starts – user inputs (assigned values, NOT recomputed) and
+calculated values it already holds that are not planned (since 77e9cc3 `generate_actions` plans and clears the
+held values the targets depend on; whatever else is held is read as it is) – `hin`: every entry of the cache is
+`inp`'s value, `hout`: no planned element has one.  Under the hypotheses of `run_correct_from_any` on the held
+elements and trace edges: EVERY value held at the end – targets, user inputs, what was held before – is the
+value direct evaluation relative to `inp` gives that element, at every depth `≥` the number of planned
+elements.  (If the calculated values held before were themselves direct evaluations relative to the user
+inputs, so is everything at the end: direct evaluation reads them as it would recompute them.) -/
+theorem run_values_are_direct_evaluation_from_any_values {V : Type} [Inhabited V] (f : Node → List (Option V) → V)
+    (ordered : List Node) (succs preds : Node → List Node) (targets : List Node)
+    (size fuel : Nat) (c0 : VCache V) (inp : Node → Option V)
+    (hz : 1 ≤ size) (ht : isTopo succs ordered = true) (hd : ordered.Nodup)
+    (h0 : c0.erase.WF) (h0d : ∀ x ∈ c0.data.map (·.1), x ∉ ordered) (h0e : ∀ e ∈ c0.edges, e.1 ∉ ordered)
+    (hp : ∀ n ∈ ordered, ∀ p ∈ preds n, (p ∈ ordered ∧ n ∈ succs p) ∨ p ∈ c0.data.map (·.1))
+    (hin : ∀ e ∈ c0.data, inp e.1 = some e.2) (hout : ∀ n ∈ ordered, inp n = none) :
+    ∀ x v, (executeV f preds (fuel + 1) (calcSteps ordered succs targets size) c0).value x = some v →
+      ∀ k, ordered.length ≤ k → direct f preds inp k x = some v := by
+  have hrc := run_correct_from_any_values f ordered succs preds targets size fuel c0 hz ht hd h0 h0d h0e hp
+  have hp' : ∀ n ∈ ordered, ∀ p ∈ preds n, (p ∈ ordered ∧ n ∈ succs p) ∨ (inp p).isSome := by
+    intro n hn p hpm
+    rcases hp n hn p hpm with h | h
+    · exact Or.inl h
+    · obtain ⟨e, he, hep⟩ := List.mem_map.mp h
+      right; rw [← hep, hin e he]; rfl
+  obtain ⟨hs, hi, hk⟩ := direct_solves ordered succs preds ht hd f inp hout hp'
+  have hc := run_cons ordered succs targets size preds c0.erase ht hd h0 h0d h0e hp f _ hs fuel hz c0 rfl
+    (fun e he => (hi e.1 e.2 (hin e he)).symm)
+  intro x v hv k hk'
+  have hval := hc.value hv
+  by_cases hx : x ∈ ordered
+  · rw [hk x hx k hk', hval]
+  · rcases (hrc.1 x).mp (held_of_value hv) with h | h
+    · exact (hx h.2).elim
+    · obtain ⟨e, he, hex⟩ := List.mem_map.mp h
+      have h1 := hin e he
+      rw [hex] at h1
+      rw [direct_of_inp f preds inp k x e.2 h1, hval, hi x e.2 h1]
+
+/-- the evaluation equations, solved by direct evaluation: on a topological order, depth `ordered.length`
+determines every planned element, more depth changes nothing, and the value of each is `f` of its
+precedents' values (so direct evaluation IS the fixed point the theorems above speak about) -/
+theorem direct_evaluation_is_the_fixed_point {V : Type} [Inhabited V] (f : Node → List (Option V) → V)
+    (ordered : List Node) (succs preds : Node → List Node) (inp : Node → Option V)
+    (ht : isTopo succs ordered = true) (hd : ordered.Nodup) (hout : ∀ n ∈ ordered, inp n = none)
+    (hp : ∀ n ∈ ordered, ∀ p ∈ preds n, (p ∈ ordered ∧ n ∈ succs p) ∨ (inp p).isSome) :
+    ∀ n ∈ ordered, ∀ k, ordered.length ≤ k →
+      direct f preds inp k n = some (f n ((preds n).map (direct f preds inp k))) := by
+  intro n hn k hk
+  obtain ⟨l, rfl⟩ : ∃ l, k = l + 1 := ⟨k - 1, by have := List.length_pos_of_mem hn; omega⟩
+  have hst := direct_stable ordered succs preds ht hd f inp hout hp ordered.length (Nat.le_refl _)
+  rw [direct_succ_of_none f preds inp l n (hout n hn)]
+  congr 2
+  apply List.map_congr_left
+  intro p hpm
+  rcases hp n hn p hpm with ⟨hpo, hs⟩ | hi
+  · by_cases hl : ordered.length ≤ l
+    · rw [hst p (by simpa using hpo) l hl, hst p (by simpa using hpo) (l + 1) (by omega)]
+    · -- l + 1 = ordered.length: `p` comes strictly before `n`, so depth `l` determines it already
+      have hlen : l + 1 = ordered.length := by omega
+      obtain ⟨i, hi, hin⟩ := List.getElem_of_mem hn
+      have eo : ordered = ordered.take i ++ n :: ordered.drop (i + 1) := by
+        rw [← hin, ← List.drop_eq_getElem_cons hi, List.take_append_drop]
+      have ht' := ht
+      have hd' := hd
+      have hpo' := hpo
+      rw [eo] at ht' hd' hpo'
+      have hpre := isTopo_pred_strict ht' hd' hpo' hs
+      have hsi := direct_stable ordered succs preds ht hd f inp hout hp i (by omega) p hpre
+      rw [hsi l (by omega), hsi (l + 1) (by omega)]
+  · obtain ⟨v, hv⟩ := Option.isSome_iff_exists.mp hi
+    rw [direct_of_inp f preds inp l p v hv, direct_of_inp f preds inp (l + 1) p v hv]
+
+/-! Non-vacuity with numbers and `None`s.  `valSeen n vs = some (n + 10 · number of precedents that HAD a value)`,
+`valNone3` as above (`Cells2(2)` is `None`). -/
+def valSeen : Node → List (Option (Option Nat)) → Option Nat :=
+  fun n vs => some (n + 10 * (vs.filter Option.isSome).length)
+
+example : (executeV valSeen demoPreds 1 (calcSteps demoOrder demoSuccs [4] 2) {}).value 4 = some (some 24) ∧
+    direct valSeen demoPreds (fun _ => none) 5 4 = some (some 24) ∧
+    direct valSeen demoPreds (fun _ => none) 9 4 = some (some 24) := by decide
+
+example : ∀ x v, (executeV valNone3 demoPreds 1 (calcSteps demoOrder demoSuccs [4, 3] 2) {}).value x = some v →
+    ∀ k, demoOrder.length ≤ k → direct valNone3 demoPreds (fun _ => none) k x = some v :=
+  (run_values_are_direct_evaluation valNone3 demoOrder demoSuccs demoPreds [4, 3] 2 0 (by decide) (by decide)
+    (by decide) (by decide)).2
+
+/-- the `None`-valued target `3` holds `None`, and that is its direct value -/
+example : (executeV valNone3 demoPreds 1 (calcSteps demoOrder demoSuccs [4, 3] 2) {}).value 3 = some none ∧
+    direct valNone3 demoPreds (fun _ => none) 5 3 = some none := by decide
+
+/-- from a model with a user input on `1` (`Cells2(0) = 100`, not recomputed) and an unrelated value `7`:
+`Cells2(1)` reads the input -/
+def inVCache : VCache (Option Nat) := { data := [(1, some 100), (7, none)], inputs := [1, 7] }
+def inVals : Node → Option (Option Nat) := fun n => if n = 1 then some (some 100) else if n = 7 then some none else none
+
+example : (executeV valSeen demoPredsIn 1 (calcSteps [0, 2, 3, 4] demoSuccsIn [4] 2) inVCache).data =
+    [(1, some 100), (7, none), (4, some 24)] ∧ direct valSeen demoPredsIn inVals 4 4 = some (some 24) ∧
+    direct valSeen demoPredsIn inVals 4 1 = some (some 100) := by decide
+
+example : ∀ x v, (executeV valSeen demoPredsIn 1 (calcSteps [0, 2, 3, 4] demoSuccsIn [4] 2) inVCache).value x = some v →
+    ∀ k, [0, 2, 3, 4].length ≤ k → direct valSeen demoPredsIn inVals k x = some v :=
+  run_values_are_direct_evaluation_from_any_values valSeen [0, 2, 3, 4] demoSuccsIn demoPredsIn [4] 2 0 inVCache inVals
+    (by decide) (by decide) (by decide) ⟨by decide, by decide⟩ (by decide) (by decide) (by decide) (by decide) (by decide)
+
+/-- **calc_needs_its_precedents_held** What the plan's order is for: a `'calc'` of an element whose precedents
+hold no value, at call-depth bound 1 (the formula cannot evaluate them itself), computes from MISSING values
+(`valSeen` sees none of its two precedents) – not the direct value.  So "every held value is the direct one" is
+false of arbitrary action lists; it is the planned order (every `'calc'` with its precedents held,
+`block_preds_held`) that makes it true for every call-depth bound `≥ 1`. -/
+theorem calc_needs_its_precedents_held :
+    ¬ ∀ (f : Node → List (Option (Option Nat)) → Option Nat) (preds : Node → List Node) (actions : List Action)
+        (x : Node) (v : Option Nat), (executeV f preds 1 actions {}).value x = some v →
+        direct f preds (fun _ => none) 5 x = some v := by
+  intro h
+  have := h valSeen demoPreds [.doCalc [4]] 4 (some 4) (by decide)
+  revert this; decide
 
 /-- a plan that clears too early is noticed by the cache model: the log shows the recomputation -/
 example : (execute demoPreds 5 [.doCalc [0, 1], .doClear [0], .doCalc [4]] {}).log =
